@@ -142,6 +142,11 @@ class Rec:
             self.next_state_now(ref)
         elif act[0] == "done":
             self.done()
+        elif act[0] == "dns":
+            # done() and then still a next_state() in the same invocation (a forgotten return): only
+            # generated for autonomous machines, where the statement says what the next on_enable() does
+            self.done()
+            self.next_state(ref)
 
     def done(self):
         self._trace.append(("done",))
@@ -426,6 +431,14 @@ class SpecSM:
                 self.bump("act:next_state_now")
                 self._enter(act[1])
                 self.execute(now, now_d, ev, depth + 1)
+            elif act and act[0] == "dns":
+                self.bump("act:done-then-next_state")
+                if not ev.take_done():
+                    self.miss("done-missing@in-state", ("C04", "C13"), "in-state done() left no marker")
+                self.cur = None
+                self.executing = False
+                self.requested = False
+                self._enter(act[1])  # a selection left behind on a stopped machine
             elif act and act[0] == "done":
                 self.bump("act:done")
                 if not ev.take_done():
@@ -654,10 +667,13 @@ class Driver:
                         model.miss(f"flags/current_state{lab_}", {"C04", "C13"}, f"{where}: current_state={csa!r}, the state that runs next is {model.cur!r}")
             else:
                 pending = model.requested  # engage() called, not executed yet: unspecified
+                # a state that called done() and then still next_state(x) leaves a selection behind on a stopped
+                # machine; current_state then names x, which nothing in the statements forbids
+                dangling = model.cur is not None and model.cur != spec.default
                 if not pending:
                     if ie is not False:
                         model.miss(f"flags/is_executing{lab_}", {"C04", "C13"}, f"{where}: is_executing={ie!r} although the machine is stopped")
-                    if csa != "":
+                    if csa != "" and not (dangling and csa == model.cur):
                         model.miss(f"flags/current_state{lab_}", {"C04", "C13"}, f"{where}: current_state={csa!r} although the machine is stopped")
 
         self.ctx = None
@@ -1084,6 +1100,11 @@ _AUTO_PERIOD = st.tuples(st.lists(_AUTO_ITER, min_size=1, max_size=25), _I(0, 7)
 def decode_auto_case(code):
     shape_c, periods, t0_c = code
     case = decode_shape(shape_c, "C13")
+    regular = [sd["n"] for sd in case["states"] if sd["kind"] != "default"]
+    if t0_c == 3:
+        for k, sd in enumerate(case["states"]):
+            if sd["kind"] != "default":
+                sd["script"] = [(["dns", regular[(k + j) % len(regular)]] if a == ["done"] else a) for j, a in enumerate(sd["script"])]
     timed = [sd["n"] for sd in case["states"] if sd["kind"] == "timed"]
     case["auto"] = True
     hist = []
